@@ -841,7 +841,27 @@ sse_rule_accw (OrcCompiler *p, void *user, OrcInstruction *insn)
 {
   const int src = p->vars[insn->src_args[0]].alloc;
   const int dest = p->vars[insn->dest_args[0]].alloc;
+  const int bytes = 2 << p->loop_shift;
 
+  /* a step narrower than the register only defines the low lanes of src:
+   * keep the others out of the sum */
+#ifndef MMX
+  if (bytes < 16) {
+    const int tmp = orc_compiler_get_temp_reg (p);
+    orc_sse_emit_movdqa (p, src, tmp);
+    orc_sse_emit_pslldq_imm (p, 16 - bytes, tmp);
+    orc_sse_emit_paddw (p, tmp, dest);
+    return;
+  }
+#else
+  if (bytes < 8) {
+    const int tmp = orc_compiler_get_temp_reg (p);
+    orc_sse_emit_movdqa (p, src, tmp);
+    orc_sse_emit_psllq_imm (p, 8 * (8 - bytes), tmp);
+    orc_sse_emit_paddw (p, tmp, dest);
+    return;
+  }
+#endif
   orc_sse_emit_paddw (p, src, dest);
 }
 
@@ -851,9 +871,25 @@ sse_rule_accl (OrcCompiler *p, void *user, OrcInstruction *insn)
   const int src = p->vars[insn->src_args[0]].alloc;
   const int dest = p->vars[insn->dest_args[0]].alloc;
 
+  const int bytes = 4 << p->loop_shift;
+
+  /* a step narrower than the register only defines the low lanes of src:
+   * keep the others out of the sum (src itself may still be needed) */
 #ifndef MMX
-  if (p->loop_shift == 0) {
-    orc_sse_emit_pslldq_imm (p, 12, src);
+  if (bytes < 16) {
+    const int tmp = orc_compiler_get_temp_reg (p);
+    orc_sse_emit_movdqa (p, src, tmp);
+    orc_sse_emit_pslldq_imm (p, 16 - bytes, tmp);
+    orc_sse_emit_paddd (p, tmp, dest);
+    return;
+  }
+#else
+  if (bytes < 8) {
+    const int tmp = orc_compiler_get_temp_reg (p);
+    orc_sse_emit_movdqa (p, src, tmp);
+    orc_sse_emit_psllq_imm (p, 8 * (8 - bytes), tmp);
+    orc_sse_emit_paddd (p, tmp, dest);
+    return;
   }
 #endif
   orc_sse_emit_paddd (p, src, dest);
